@@ -472,6 +472,8 @@ func runC13(c *core.Ctx) error {
 
 	checkBuffers(c, prog, r4)
 	checkHexEncode(c, prog, r5)
+	r6 := c.NewRule("R13.6", "S1", "json.formatDuration writes the sign on every non-zero path", 2)
+	checkDurationSign(c, prog, r6)
 	return nil
 }
 
@@ -814,4 +816,87 @@ func nibbleOf(v ssa.Value) (k int64, hi bool, ok bool) {
 		return kk, hi, isK
 	}
 	return 0, false, false
+}
+
+// checkDurationSign: in the in-package port of time.Duration.String the '-'
+// is stored under `d < 0`, and the test of that condition dominates every
+// return except those of the u == 0 arm.
+func checkDurationSign(c *core.Ctx, prog *core.Prog, r *core.Rule) {
+	fn := prog.Func(pkgJSON, "formatDuration")
+	if fn == nil {
+		r.Undecided("anchor:formatDuration", "-", "json.formatDuration not found")
+		return
+	}
+	// neg := d < 0
+	var neg *ssa.BinOp
+	for _, b := range fn.Blocks {
+		for _, in := range b.Instrs {
+			if bo, ok := in.(*ssa.BinOp); ok && bo.Op == token.LSS {
+				if _, isP := bo.X.(*ssa.Parameter); isP {
+					if z, ok := core.ConstInt(bo.Y); ok && z == 0 {
+						neg = bo
+					}
+				}
+			}
+		}
+	}
+	if neg == nil {
+		r.Undecided("formatDuration:neg", c.Pos(fn.Pos()), "no `d < 0` test found")
+		return
+	}
+	// the If(neg) whose true edge stores '-'
+	var signIf *ssa.BasicBlock
+	for _, ref := range *neg.Referrers() {
+		iff, ok := ref.(*ssa.If)
+		if !ok {
+			continue
+		}
+		tb := iff.Block().Succs[0]
+		for _, in := range tb.Instrs {
+			if st, ok := in.(*ssa.Store); ok {
+				if v, ok := core.ConstInt(st.Val); ok && v == '-' {
+					signIf = iff.Block()
+				}
+			}
+		}
+	}
+	if signIf == nil {
+		r.Fail("formatDuration:sign-store", c.Pos(neg.Pos()), "no store of '-' under `d < 0`: negative durations are printed without their sign")
+		return
+	}
+	r.Pass("formatDuration stores '-' under d < 0")
+	// zero arm: blocks dominated by the true edge of u == 0
+	var zeroBlocks []*ssa.BasicBlock
+	for _, b := range fn.Blocks {
+		for _, in := range b.Instrs {
+			if bo, ok := in.(*ssa.BinOp); ok && bo.Op == token.EQL {
+				if z, ok := core.ConstInt(bo.Y); ok && z == 0 {
+					zeroBlocks = append(zeroBlocks, core.EdgeBlocks(bo, true)...)
+				}
+			}
+		}
+	}
+	okAll := true
+	for _, b := range fn.Blocks {
+		ret, ok := b.Instrs[len(b.Instrs)-1].(*ssa.Return)
+		if !ok {
+			continue
+		}
+		inZero := false
+		for _, zb := range zeroBlocks {
+			if zb.Dominates(b) {
+				inZero = true
+			}
+		}
+		if inZero {
+			continue
+		}
+		if !signIf.Dominates(b) {
+			okAll = false
+			r.Fail("formatDuration:sign-skipped", c.Pos(ret.Pos()), "a non-zero duration can be returned without passing the `d < 0` sign test: its sign is lost (e.g. -250ms prints as 250ms)")
+		}
+	}
+	if okAll {
+		r.Pass("every non-zero return of formatDuration passes the sign test")
+	}
 }
